@@ -10,7 +10,8 @@ Fonts == <<"roboto", "sourcesans">>
 Ascii == [i \in 1..94 |-> 32 + i]
 Accented == <<192, 193, 194, 195, 196, 197, 199, 200, 201, 202, 203, 209, 210, 214, 217, 220, 224, 225, 226, 228, 229, 231, 232, 233, 234, 235, 241, 242, 246, 249, 252, 255, 256, 262, 268, 282, 321, 337, 350, 352, 366, 381>>
 GreekCyr == [i \in 1..40 |-> 913 + i] \o [i \in 1..40 |-> 1040 + i]
-Symbols == <<8211, 8212, 8216, 8217, 8220, 8221, 8226, 8230, 8364, 8482, 169, 174, 176, 177, 183, 215, 247, 64257, 64258>>
+\* ... and composites whose components carry their own x / y scale (less-or-equal, greater-or-equal, the long dashes)
+Symbols == <<8211, 8212, 8216, 8217, 8220, 8221, 8226, 8230, 8364, 8482, 169, 174, 176, 177, 183, 215, 247, 64257, 64258, 8804, 8805, 11834, 11835>>
 Unmapped == <<20013, 25991, 12354, 128512, 57344, 1114111>>
 Pool == Ascii \o Accented \o GreekCyr \o Symbols \o Unmapped
 SizeOf(k) == <<1, 2, 5, 9, 10, 11, 30, 60, 150>>[(k % 9) + 1]
@@ -23,6 +24,10 @@ Next == /\ ~done
         /\ \A j \in 0..(NCases - 1) : LET k == j * Stride IN
              PrintT(<<"REPLAY", ToJson([font |-> Fonts[(k % 2) + 1], chars |-> CharsOf(k \div 2), k |-> k])>>)
         /\ \A j \in 0..((NCases \div 4) - 1) : PrintT(<<"REPLAY", ToJson([font |-> "roboto", chars |-> <<>>, gids |-> GidsOf(j), k |-> j])>>)
+        \* fixed sets: the scaled-component composites together; CFF sets whose charstring data lands on an offset-size boundary
+        /\ PrintT(<<"REPLAY", ToJson([font |-> "roboto", chars |-> <<65, 8804, 8805, 11834, 11835, 233>>, k |-> 9001])>>)
+        /\ PrintT(<<"REPLAY", ToJson([font |-> "sourcesans", chars |-> <<65, 66>>, k |-> 9002])>>)
+        /\ PrintT(<<"REPLAY", ToJson([font |-> "sourcesans", chars |-> <<111, 113>>, k |-> 9003])>>)
         /\ done' = TRUE
 Spec == Init /\ [][Next]_done
 =============================================================================
